@@ -271,3 +271,103 @@ func groupPath(n *RouterNode) string {
 	}
 	return p
 }
+
+// ZZ_C16_H3: snake-style middleware names. Three routes /<group path>/x|y|z whose group paths
+// come from {a-b, a_b, a/b, a, a-b/c} - up to three groups whose snake name is "_a_b". After
+// DyeGroupName(true) the de-duplication pass of genRouter is applied (that pass is a closure
+// inside genRouter, next to the file output, so its dozen lines are repeated here around the
+// real appendMw), then the tree is read through the templates as in H1.
+func ZZ_C16_H3() {
+	groups := []string{"a-b", "a_b", "a/b", "a", "a-b/c"}
+	leaves := []string{"x", "y", "z"}
+	sortRouter := zz.Choose("sortRouter", 2) == 1
+	root := NewRouterTree()
+	var paths []string
+	for i := 0; i < 3; i++ {
+		p := "/" + groups[zz.Choose("group", len(groups))] + "/" + leaves[i]
+		paths = append(paths, p)
+		err := root.Update(&HttpMethod{Name: "Method" + string(rune('A'+i)), HTTPMethod: "GET", Path: p}, "svc", "", sortRouter)
+		zz.Assert("declared-route-accepted", err == nil)
+		if err != nil {
+			return
+		}
+	}
+	err := root.DyeGroupName(true)
+	zz.Assert("names-assigned", err == nil)
+	if err != nil {
+		return
+	}
+	// genRouter: "unique middleware name for SnakeStyleMiddleware"
+	mws := []string{}
+	root.DFS(0, func(layer int, node *RouterNode) error { //nolint:errcheck
+		if len(node.Children) == 0 {
+			return nil
+		}
+		groupMwName := node.GroupMiddleware
+		handlerMwName := node.HandlerMiddleware
+		if len(groupMwName) != 0 {
+			mws, groupMwName = appendMw(mws, groupMwName)
+		}
+		if len(handlerMwName) != 0 {
+			mws, handlerMwName = appendMw(mws, handlerMwName)
+		}
+		node.GroupMiddleware = groupMwName
+		node.HandlerMiddleware = handlerMwName
+		return nil
+	})
+	in := &zzInterp{}
+	in.g(root, &zzScope{vars: map[string]*zzDecl{}}, map[*RouterNode][]*RouterNode{})
+	in.m(root)
+	zz.Cover("reached-assert", true)
+	zz.Assert("every-group-variable-is-declared-before-use", !in.undefined)
+	zz.Assert("no-variable-declared-twice-in-a-block", !in.redecl)
+	zz.Assert("no-declared-variable-unused", !in.unused)
+	zz.Assert("identifiers-are-valid-go", !in.badIdent)
+	dupFunc := false
+	for i := range in.funcs {
+		for j := 0; j < i; j++ {
+			if in.funcs[i] == in.funcs[j] {
+				dupFunc = true
+			}
+		}
+	}
+	zz.Cover("three-groups-with-one-snake-name", strings.Contains(paths[0]+paths[1]+paths[2], "a-b/") && strings.Contains(paths[0]+paths[1]+paths[2], "a_b/") && strings.Contains(paths[0]+paths[1]+paths[2], "a/b/"))
+	zz.Assert("middleware-function-names-distinct", !dupFunc)
+	ok := len(in.regs) == 3
+	for i, p := range paths {
+		n := 0
+		for _, r := range in.regs {
+			if r.path == p && r.verb == "GET" && r.handler == "svc.Method"+string(rune('A'+i)) {
+				n++
+			}
+		}
+		if n != 1 {
+			ok = false
+		}
+	}
+	zz.Assert("each-declared-route-registered-once-with-its-handler", ok)
+}
+
+// ZZ_C16_H4: the uniquifier behind the snake-style names on its own: whatever names are asked
+// for, in whatever order, the names handed out are pairwise distinct.
+func ZZ_C16_H4() {
+	names := []string{"_a_b", "_a_b0", "_a", "_a_b00", "_a_b01"}
+	k := zz.Range("calls", 1, zz.Param("K", 4))
+	mws := []string{}
+	var out []string
+	for i := 0; i < k; i++ {
+		var got string
+		mws, got = appendMw(mws, names[zz.Choose("name", len(names))])
+		out = append(out, got)
+	}
+	zz.Cover("reached-assert", true)
+	distinct := true
+	for i := range out {
+		for j := 0; j < i; j++ {
+			if out[i] == out[j] {
+				distinct = false
+			}
+		}
+	}
+	zz.Assert("names-handed-out-are-pairwise-distinct", distinct)
+}
